@@ -57,6 +57,17 @@ def jobs(tier):
                 if uf:
                     opts["users_first"] = True
                 out.append({"prop": PROP, "cfg": cfg, "order": "asc", "base": "B1", "scripts": A.stamp(sc), "opts": opts})
+    # objects moving across the root boundary (an entry the engine holds as irrelevant becomes relevant and vice versa)
+    from .c12 import OUTSIDE
+    for cfg in (["oo", "of"] if tier == "quick" else ["oo", "of", "po", "pp"]):
+        for sc in ([[["rename", "/other/x", "x"], ["create", "c"]], []], [[], [["rename", "/other/x", "x"], ["create", "c"]]],
+                   [[["rename", "/other/x", "x"]], [["create", "c"]]], [[["rename", "a", "/other/a"], ["create", "c"]], []],
+                   [[["rename", "/other/sub", "sub"], ["write", "a"]], []]):
+            for po in (None, ["IL", "IR", "UL", "UR", "S"]):      # (second schedule: events are taken in eagerly, syncing lags)
+                opts = {"storage": True, "raw_do": True, "outside": OUTSIDE}
+                if po:
+                    opts["prompt_order"] = po
+                out.append({"prop": PROP, "cfg": cfg, "order": "asc", "base": "B1", "scripts": A.stamp(sc), "opts": opts})
     # first-ever start: the tree exists on one side before the engine has run (initial walk, first cursor, first rows);
     # every storage write / provider write of that first synchronisation is a crash instant
     for cfg in cfgs:
